@@ -309,6 +309,14 @@ func runCase(r *vlib.Run, cs *chains, c *tcase) {
 		prev = cs.c[c.Prev.Chain][c.Prev.Height]
 	}
 
+	// a linked chain follows the planned arrival order to the end, so a gate
+	// only times out there when the machine is overloaded: wait long; on an
+	// unlinked chain validation stops early and gates of never-released
+	// heights time out by design: wait short
+	gateWait := 5 * time.Second
+	if linked {
+		gateWait = 3 * time.Minute
+	}
 	fetch := func(ctx context.Context, height base.Height) (base.BlockMap, error) {
 		h := height.Int64()
 		if gated {
@@ -320,7 +328,7 @@ func runCase(r *vlib.Run, cs *chains, c *tcase) {
 			case <-g:
 			case <-ctx.Done():
 				return nil, ctx.Err()
-			case <-time.After(5 * time.Second):
+			case <-time.After(gateWait): // only fires when the plan of arrivals cannot be followed
 				mo.mu.Lock()
 				mo.gateTO++
 				mo.mu.Unlock()
@@ -353,7 +361,7 @@ func runCase(r *vlib.Run, cs *chains, c *tcase) {
 
 	var err error
 	var panicked bool
-	ok := r.WithWatchdog(120*time.Second, fmt.Sprintf("BatchIsValidMaps case %d", c.Idx), func() {
+	ok := r.WithWatchdog(20*time.Minute, fmt.Sprintf("BatchIsValidMaps case %d", c.Idx), func() {
 		panicked = r.Guard("BatchIsValidMaps", c, func() {
 			err = base.BatchIsValidMaps(context.Background(), prev, base.Height(c.To), c.Limit, fetch, callback)
 		})
